@@ -235,6 +235,13 @@ noncomputable def arithC : Arith ℂ where
   setIm c v := ⟨c.re, (v : ℝ)⟩
   roundRe c := round c.re
   roundIm c := round c.im
+  neg z := -z
+  scale k z := z * ((k : ℤ) : ℂ)
+  divS k z := z / ((k : ℤ) : ℂ)
+  div a b := a * (starRingEnd ℂ) b / ((Complex.normSq b : ℝ) : ℂ)
+  abs2 z := ((Complex.normSq z : ℝ) : ℂ)
+  absq z := ((‖z‖ * ‖z‖ : ℝ) : ℂ)
+  ci := I
 
 theorem ringOps_arithC : RingOps arithC := ⟨fun _ _ => rfl, fun _ _ => rfl, fun _ _ => rfl⟩
 
@@ -906,6 +913,48 @@ theorem accC_spec {K : Type} (A : Arith K) (res buf : Array K) :
   by_cases h : p < buf.size
   · rw [if_pos ⟨Nat.zero_le _, by omega⟩, if_pos h]; rfl
   · rw [if_neg (by omega), if_neg h]
+
+theorem ext_rdA {K : Type} (A : Arith K) (x y : Array K) (hs : x.size = y.size) (h : ∀ p, p < x.size → rdA A x p = rdA A y p) : x = y := by
+  apply Array.ext hs
+  intro i h1 h2
+  have := h i h1
+  unfold rdA at this
+  rw [Array.getD_eq_getD_getElem?, Array.getD_eq_getD_getElem?, Array.getElem?_eq_getElem h1, Array.getElem?_eq_getElem h2] at this
+  exact this
+
+/-- `fft_into(v, n, res)` adds to `res` (common prefix, `Complex +=`) what `fft(v, n)` returns — in every arithmetic in
+    which adding `ZERO + y` is the same as adding `y` (exact arithmetic; IEEE whenever the destination entry is not `-0.0`). -/
+theorem fftIntoRef_adds {K : Type} (A : Arith K) (hz : ∀ x y, A.add x (A.add A.zero y) = A.add x y)
+    (v : Array Int) (m : ℕ) (res : Array K) :
+    fftIntoRef A v m res = accC A res (fftIntoRef A v m (Array.replicate (2^m) A.zero)) := by
+  unfold fftIntoRef
+  have r1 : (fillRe A v (Array.replicate (2^m) A.zero)).size = 2^m := by
+    rw [(fillRe_spec A v (Array.replicate (2^m) A.zero)).1, Array.size_replicate]
+  have f1 := size_fftRef A m false _ r1
+  obtain ⟨z1, z2⟩ := accC_spec A (Array.replicate (2^m) A.zero) (fftRef A m false (fillRe A v (Array.replicate (2^m) A.zero)))
+  rw [Array.size_replicate] at z1 z2
+  obtain ⟨a1, a2⟩ := accC_spec A res (fftRef A m false (fillRe A v (Array.replicate (2^m) A.zero)))
+  obtain ⟨b1, b2⟩ := accC_spec A res (accC A (Array.replicate (2^m) A.zero) (fftRef A m false (fillRe A v (Array.replicate (2^m) A.zero))))
+  apply ext_rdA A _ _ (by rw [a1, b1])
+  intro p hp
+  rw [a1] at hp
+  rw [a2 p hp, b2 p hp, z1, f1]
+  by_cases hpm : p < 2^m
+  · rw [if_pos hpm, if_pos hpm, z2 p hpm, f1, if_pos hpm, rdA_replicate, hz]
+  · rw [if_neg hpm, if_neg hpm]
+
+theorem ceilPow2_one_pos (len : ℕ) : 0 < ceilPow2 1 len := by
+  obtain ⟨m, _, hm⟩ := ceilPow2_spec (len - 2^0) 0 len rfl
+  rw [Nat.pow_zero] at hm
+  rw [hm]; exact Nat.two_pow_pos m
+
+/-- `fft(v, 0)` is `fft(v, n)` with `n` the smallest power of two `≥ v.len()` (1 for an empty or one-element input). -/
+theorem fft?_autosize {K : Type} (A : Arith K) (s : State K) (v : Array Int) :
+    fft? A s v 0 = fft? A s v (ceilPow2 1 v.size) := by
+  have hp := ceilPow2_one_pos v.size
+  have h0 : ¬ ceilPow2 1 v.size = 0 := by omega
+  unfold fft? fftInto? fftSize
+  simp only [if_true, if_neg h0]
 
 /-- `fft` in exact arithmetic: the DFT of the coefficient vector -/
 theorem fftIntoRef_zero_exact (v : Array Int) (m : ℕ) :
